@@ -21,6 +21,7 @@ META = {
         "typed values), invalid inputs for the validated constructor, histories over the memoised standardisation "
         "(equal keys interleaved with many distinct keys). Non-trivial: boundary ranks (0, first/last of a length), "
         "inputs with ties, length >= 3. Distinct = case content."
+        " Light mesh rank sweep: every shading at length 3 and few-cell shadings at lengths 4-6 against the documented bit layout (non-trivial there = at least two shaded cells)."
     ),
     "assumptions": [
         "standardisation inputs are hashable and mutually comparable (the memo needs hashable keys; all callers pass ints, chars or Fractions)",
